@@ -110,7 +110,7 @@ CLAIMS = {
              "and gradient are those of one recorded evaluation (bit-equal), status set, reported counts never above the performed ones (at "
              "every logger line), finiteness, no-worse-than-start, budget overshoot <= 1100 + 8n.",
         note="Observation of sampled runs (exploration), not a proof over all inputs; bit-equality, finiteness and the CG_DESCENT allowance "
-             "are computed by the driver from the wrapper's records; termination = watchdog; constrained solvers: see C05."),
+             "are computed by the driver from the wrapper's records; termination = watchdog; the constrained solvers run through C05's driver (Solve records, also validated by this check)."),
     "C01": dict(
         category="exploration", design_ref="DESIGN.md §3 C01",
         technique="TLC model checking of SolverLoop.tla (ls family) + TLC validation of line-search solver runs (MinimizerTrace.tla: ConvergedIsTruthful, QuadraticSolved)",
@@ -147,7 +147,9 @@ CLAIMS = {
              "through null/serious steps and deletions, that the stopping test certifies the gap bound, that append never reaches capacity "
              "(with the repaired guard; without it TLC finds the overflow) and the curve-search status machine. Step sequences on a real "
              "bundle_t (cuts read through the guarded accessors) are re-derived by TLC; RQB/FPBA1/FPBA2/ellipsoid on sharp objectives: "
-             "`converged` implies the stated gap, the ellipsoid converges within 20000 evaluations for n <= 6.",
+             "`converged` implies the stated gap, the ellipsoid converges within 20000 evaluations for n <= 6; inside those runs a guarded "
+             "observer hook shows the cutting plane model after every update and the invariants of Bundle.tla (cuts are lower bounds at "
+             "the minimiser and at probe points, errors non-negative, size below capacity) are evaluated on it.",
         note="The n-dimensional real-valued certificate is observed per run (driver oracle with known minimiser), exact only in 1-D. "
              "One open finding: the ellipsoid method with epsilon <= 5e-8 and a warm start (known_findings.json)."),
     "C04": dict(
@@ -187,7 +189,9 @@ CLAIMS = {
              "control); the driver calls const members of every registered loss, function, weak learner, splitter, tuner and fitted model "
              "from 1..16 threads with seeded yields and TLC checks each concurrent result equals the solo result bit for bit, and that "
              "gboost/linear fits are invariant under the pool-size cap.",
-        note="Data races that do not change a result are visible only to the auxiliary TSan run (thorough); the yield points are the "
+        note="One open finding: fits whose greedy choices hinge on near-ties (decision trees, several table kinds, weighted bootstraps) are "
+             "schedule-dependent; they are run apart and reported as that finding. "
+             "Data races that do not change a result are visible only to the auxiliary TSan run (thorough); the yield points are the "
              "pool hooks, other code is interleaved by the OS scheduler."),
     "C14": dict(
         category="other", design_ref="DESIGN.md §3 C14",
@@ -209,7 +213,7 @@ CLAIMS = {
              "prototypes and the exp/log/atan losses are covered by driver oracles (central differences, tolerance inequalities) asserted by the "
              "same trace specification.",
         note="Partial: real-valued points are decided by floating-point oracles in the driver, not by TLC; no adversarial search on the "
-             "violation; linear/gboost objectives' gradients are covered under C09. One open finding (s-classnll with one output)."),
+             "violation. Two open findings (s-classnll with one output; declared strong convexity of the linear objective)."),
 }
 
 NOT_YET = "machinery not finished (see DESIGN.md §7: a property is claimed only once its quick check passes and its demo mutations are caught)"
